@@ -39,9 +39,13 @@ const (
 	opAtomic
 	opIO
 	opYield
+	opCondWait
+	opCondWake
+	opCondSignal
+	opCondBroadcast
 )
 
-var kindNames = [...]string{"begin", "spawn", "join", "send", "recv", "close", "len", "select", "lock", "unlock", "rlock", "runlock", "wg.add", "wg.wait", "once", "atomic", "io", "yield"}
+var kindNames = [...]string{"begin", "spawn", "join", "send", "recv", "close", "len", "select", "lock", "unlock", "rlock", "runlock", "wg.add", "wg.wait", "once", "atomic", "io", "yield", "cond.wait", "cond.wake", "cond.signal", "cond.broadcast"}
 
 func (k opKind) String() string { return kindNames[k] }
 
@@ -78,24 +82,28 @@ type object struct {
 	counter int     // waitgroup
 	onceSt  int     // 0 none, 1 running, 2 done
 	onceBy  *thread
+	waiters []*thread // cond: threads in Wait, FIFO
+	mutex   *object   // cond: its locker
 	// race oracle
 	vc vclock
 }
 
 type thread struct {
-	id      int
-	gid     uint64
-	wake    chan struct{}
-	ended   chan struct{}
-	pend    *op
-	answer  int // select: chosen case (-1 default); io: 0 ok, 1 fault
-	done    bool
-	started bool
-	hash    uint64
-	vc      vclock
-	panicV  interface{}
-	panicS  string
-	steps   int
+	id        int
+	gid       uint64
+	wake      chan struct{}
+	ended     chan struct{}
+	pend      *op
+	answer    int // select: chosen case (-1 default); io: 0 ok, 1 fault
+	done      bool
+	started   bool
+	hash      uint64
+	vc        vclock
+	panicV    interface{}
+	panicS    string
+	steps     int
+	signalled bool   // cond: woken by Signal/Broadcast
+	sigVC     vclock // clock of the signaller
 }
 
 // Handle identifies a spawned thread.
@@ -486,6 +494,17 @@ func (x *exec) ptrObj(p interface{}, kind string) *object {
 	return x.object([2]uintptr{2, reflect.ValueOf(p).Pointer()}, p, kind)
 }
 
+// ptrObjLocked is ptrObj for callers that hold x.mu.
+func (x *exec) ptrObjLocked(p interface{}, kind string) *object {
+	key := [2]uintptr{2, reflect.ValueOf(p).Pointer()}
+	o := x.objs[key]
+	if o == nil {
+		o = &object{key: key, ref: p, kind: kind, label: -1}
+		x.objs[key] = o
+	}
+	return o
+}
+
 func MutexLock(m *sync.Mutex) {
 	if x, t := self(); x != nil {
 		x.park(t, &op{kind: opLock, obj: x.ptrObj(m, "mutex"), pos: caller(2)}, false)
@@ -568,6 +587,45 @@ func OnceDo(o *sync.Once, f func()) {
 	})
 }
 
+// CondWait models c.Wait() without ever blocking in the real sync.Cond: release
+// the locker and enqueue (always enabled), wait to be signalled, re-acquire.
+func CondWait(c *sync.Cond) {
+	x, t := self()
+	mu, isMutex := c.L.(*sync.Mutex)
+	if x == nil || !isMutex {
+		c.Wait()
+		return
+	}
+	ob := x.ptrObj(c, "cond")
+	x.mu.Lock()
+	ob.mutex = x.ptrObjLocked(mu, "mutex")
+	x.mu.Unlock()
+	pos := caller(2)
+	x.park(t, &op{kind: opCondWait, obj: ob, pos: pos}, false)
+	mu.Unlock()
+	x.park(t, &op{kind: opCondWake, obj: ob, pos: pos}, false)
+	x.park(t, &op{kind: opLock, obj: ob.mutex, pos: pos}, false)
+	mu.Lock()
+}
+
+func CondSignal(c *sync.Cond) {
+	x, t := self()
+	if _, isMutex := c.L.(*sync.Mutex); x == nil || !isMutex {
+		c.Signal()
+		return
+	}
+	x.park(t, &op{kind: opCondSignal, obj: x.ptrObj(c, "cond"), pos: caller(2)}, false)
+}
+
+func CondBroadcast(c *sync.Cond) {
+	x, t := self()
+	if _, isMutex := c.L.(*sync.Mutex); x == nil || !isMutex {
+		c.Broadcast()
+		return
+	}
+	x.park(t, &op{kind: opCondBroadcast, obj: x.ptrObj(c, "cond"), pos: caller(2)}, false)
+}
+
 // Atomic is the scheduling point placed before a sync/atomic operation on p.
 func Atomic(p interface{}) {
 	if x, t := self(); x != nil {
@@ -629,6 +687,9 @@ func (x *exec) enabled() []trans {
 	for _, t := range live {
 		o := t.pend
 		x.ensureLabel(o.obj, t)
+		if o.obj != nil && o.obj.mutex != nil {
+			x.ensureLabel(o.obj.mutex, t)
+		}
 		for _, c := range o.cases {
 			x.ensureLabel(c.obj, t)
 		}
@@ -673,8 +734,12 @@ func (x *exec) enabled() []trans {
 	for _, t := range order {
 		o := t.pend
 		switch o.kind {
-		case opBegin, opSpawn, opClose, opLen, opUnlock, opRUnlock, opWGAdd, opAtomic, opYield:
+		case opBegin, opSpawn, opClose, opLen, opUnlock, opRUnlock, opWGAdd, opAtomic, opYield, opCondWait, opCondSignal, opCondBroadcast:
 			out = append(out, trans{t: t, tCase: -2})
+		case opCondWake:
+			if t.signalled {
+				out = append(out, trans{t: t, tCase: -2})
+			}
 		case opJoin:
 			if o.target == nil || o.target.done {
 				out = append(out, trans{t: t, tCase: -2})
@@ -810,6 +875,30 @@ func (x *exec) apply(tr trans) {
 		} else {
 			write = false
 		}
+	case opCondWait:
+		obj.waiters = append(obj.waiters, t)
+		t.signalled = false
+		if obj.mutex != nil {
+			obj.mutex.owner = nil
+			obj.mutex.vc.join(t.vc)
+			obj.mutex.hash = mix(obj.mutex.hash, uint64(t.id), t.hash)
+		}
+	case opCondWake:
+		t.vc.join(t.sigVC)
+		write = false
+	case opCondSignal:
+		if len(obj.waiters) > 0 {
+			w := obj.waiters[0]
+			obj.waiters = obj.waiters[1:]
+			w.signalled = true
+			w.sigVC = t.vc.clone()
+		}
+	case opCondBroadcast:
+		for _, w := range obj.waiters {
+			w.signalled = true
+			w.sigVC = t.vc.clone()
+		}
+		obj.waiters = nil
 	case opIO:
 		st.Op = "io:" + o.label
 		if tr.fault {
